@@ -55,12 +55,12 @@ pub mod vba { pub struct VbaError; }
 
 // what `from_err!(quick_xml::Error, XlsxError, Xml)` / `from_err!(quick_xml::events::attributes::AttrError, XlsxError, XmlAttribute)`
 // (macro of src/utils.rs) expand to
-impl From<quick_xml::Error> for XlsxError { fn from(e: quick_xml::Error) -> (r: XlsxError) { XlsxError::Xml(e) } }
+impl From<quick_xml::Error> for XlsxError { fn from(e: quick_xml::Error) -> (r: XlsxError) ensures r == XlsxError::Xml(e) { XlsxError::Xml(e) } }
 impl vstd::std_specs::convert::FromSpecImpl<quick_xml::Error> for XlsxError {
     open spec fn obeys_from_spec() -> bool { true }
     open spec fn from_spec(e: quick_xml::Error) -> Self { XlsxError::Xml(e) }
 }
-impl From<quick_xml::events::attributes::AttrError> for XlsxError { fn from(e: quick_xml::events::attributes::AttrError) -> (r: XlsxError) { XlsxError::XmlAttribute(e) } }
+impl From<quick_xml::events::attributes::AttrError> for XlsxError { fn from(e: quick_xml::events::attributes::AttrError) -> (r: XlsxError) ensures r == XlsxError::XmlAttribute(e) { XlsxError::XmlAttribute(e) } }
 impl vstd::std_specs::convert::FromSpecImpl<quick_xml::events::attributes::AttrError> for XlsxError {
     open spec fn obeys_from_spec() -> bool { true }
     open spec fn from_spec(e: quick_xml::events::attributes::AttrError) -> Self { XlsxError::XmlAttribute(e) }
@@ -111,9 +111,24 @@ pub assume_specification<'a, T, P: FnMut(&<std::slice::Iter<'a, T> as Iterator>:
 pub assume_specification<T: Clone>[ <T as std::borrow::ToOwned>::to_owned ](x: &T) -> (r: T)
     ensures call_ensures(<T as Clone>::clone, (x,), r);
 
+// TRUSTED: A-std -- `str::eq_ignore_ascii_case`: "Checks that two strings are an ASCII case-insensitive match" (not called by the
+// verified text; present so that an edit replacing an exact comparison by it is verified against the contracts, not rejected)
+pub open spec fn ascii_lower(c: char) -> char { if 'A' <= c && c <= 'Z' { ((c as u8) + 32u8) as char } else { c } }
+pub open spec fn eq_ic(a: Seq<char>, b: Seq<char>) -> bool { a.len() == b.len() && forall|i: int| 0 <= i < a.len() ==> ascii_lower(#[trigger] a[i]) == ascii_lower(b[i]) }
+pub assume_specification[ str::eq_ignore_ascii_case ](a: &str, b: &str) -> (r: bool)
+    ensures r == eq_ic(a@, b@);
 // TRUSTED: A-std -- a `str` is determined by its character sequence (Verus compares string-literal patterns as `str` values)
-pub broadcast axiom fn axiom_str_ext(a: &str, b: &str)
-    ensures #![trigger a@, b@] (a@ == b@) ==> a == b;
+pub axiom fn axiom_str_ext(a: &str, b: &str)
+    ensures (a@ == b@) ==> a == b;
+/// ... instantiated for the literals the verified code matches on
+pub broadcast proof fn lemma_str_ext_lits(a: &str)
+    ensures #![trigger a@]
+        (a@ == "visible"@ ==> a == "visible") && (a@ == "hidden"@ ==> a == "hidden") && (a@ == "veryHidden"@ ==> a == "veryHidden")
+        && (a@ == "worksheets"@ ==> a == "worksheets") && (a@ == "chartsheets"@ ==> a == "chartsheets") && (a@ == "dialogsheets"@ ==> a == "dialogsheets"),
+{
+    axiom_str_ext(a, "visible"); axiom_str_ext(a, "hidden"); axiom_str_ext(a, "veryHidden");
+    axiom_str_ext(a, "worksheets"); axiom_str_ext(a, "chartsheets"); axiom_str_ext(a, "dialogsheets");
+}
 // TRUSTED: A-std -- `to_string()` of a String / a Cow<str> (through Display) is its content
 pub broadcast axiom fn axiom_string_to_string(t: &String, s: String)
     ensures #[trigger] to_string_from_display_ensures::<String>(t, s) <==> s@ == t@;
@@ -405,6 +420,17 @@ impl<'a> IteratorSpecImpl for Attributes<'a> {
         if 0 <= i < self.items().len() { Some(self.items()[i]) } else { None }
     }
 }
+/// f holds of every Ok item among the first n
+pub closed spec fn ok_all<'a>(items: Seq<Result<Attribute<'a>, quick_xml::events::attributes::AttrError>>, f: spec_fn(Attribute<'a>) -> bool, n: int) -> bool {
+    forall|j: int| 0 <= j < n && j < items.len() && (#[trigger] items[j]) is Ok ==> f(items[j]->Ok_0)
+}
+/// (proved) `ok_all` read on the side of the ghost attributes: re-triggering on `at[j]`
+pub broadcast proof fn lemma_ok_all<'a>(items: Seq<Result<Attribute<'a>, quick_xml::events::attributes::AttrError>>, f: spec_fn(Attribute<'a>) -> bool, n: int, at: Seq<Attr>, j: int)
+    requires ok_all(items, f, n), attrs_match(items, at), 0 <= j < n, j < at.len(), at[j].ok,
+    ensures #![trigger ok_all(items, f, n), attrs_match(items, at), at[j]] f(items[j]->Ok_0) && items[j]->Ok_0.is(at[j]),
+{
+    assert(items[j] is Ok);
+}
 // TRUSTED: stand-in for `FilterMap<Attributes, fn(Result<..>) -> Option<..>>` as produced by `.filter_map(Result::ok)`
 #[verifier::external_body]
 pub struct OkAttributes<'a> { _p: core::marker::PhantomData<&'a ()> }
@@ -417,8 +443,8 @@ impl<'a> OkAttributes<'a> {
             match r {
                 Some(x) => exists|i: int| 0 <= i < old(self).src().len() && (#[trigger] old(self).src()[i]) == Ok::<Attribute<'a>, quick_xml::events::attributes::AttrError>(x)
                     && call_ensures(pred, (&x,), true)
-                    && forall|j: int| 0 <= j < i && (#[trigger] old(self).src()[j]) is Ok ==> call_ensures(pred, (&old(self).src()[j]->Ok_0,), false),
-                None => forall|j: int| 0 <= j < old(self).src().len() && (#[trigger] old(self).src()[j]) is Ok ==> call_ensures(pred, (&old(self).src()[j]->Ok_0,), false),
+                    && ok_all(old(self).src(), |y: Attribute<'a>| call_ensures(pred, (&y,), false), i),
+                None => ok_all(old(self).src(), |y: Attribute<'a>| call_ensures(pred, (&y,), false), old(self).src().len() as int),
             },
     { unimplemented!() }
 }
@@ -625,7 +651,9 @@ impl<RS> Xlsx<RS> {
         (forall|i: int| 0 <= i < old(self).g_sheets()@.len() && (#[trigger] old(self).g_sheets()@[i]).0@ == name@
             ==> !has_part(content(old(self).g_zip()), old(self).g_sheets()@[i].1@)) ==> r is Err && r->Err_0 is WorksheetNotFound,
 //@@ closure 0
-    -> (res: bool) ensures res == (__c0_0.0@ == name@)
+    -> (res: bool) ensures
+        //# C07.sheet_lookup_exact_name
+        res == (__c0_0.0@ == name@)
 //@@ closure 1
     -> (e: XlsxError) ensures e is WorksheetNotFound
 //@@ closure 2
@@ -723,7 +751,9 @@ proof fn witness_tables_loaded<RS>(x: Xlsx<RS>)
             && (forall|j: int| 0 <= j < i ==> (#[trigger] self.g_tables()->Some_0@[j]).0@ != table_name@)
             && strs((r->Ok_0).columns@) == strs(self.g_tables()->Some_0@[i].2@) && (r->Ok_0).dimensions == self.g_tables()->Some_0@[i].3,
 //@@ closure 0
-    -> (res: bool) ensures res == (__c0_0.0@ == table_name@)
+    -> (res: bool) ensures
+        //# C17.table_lookup_exact_name
+        res == (__c0_0.0@ == table_name@)
 //@@ closure 1
     -> (e: XlsxError) ensures e is TableNotFound
 //@@ body
@@ -799,18 +829,18 @@ proof fn witness_tables_loaded<RS>(x: Xlsx<RS>)
 // namespaces, among them `x15:workbookPr` of Excel 2013+, which is not the workbook's workbookPr.
 // The definition below walks the event sequence with the element context of the schema.
 // =====================================================================================================================
-pub open spec fn n_sheet() -> Seq<u8> { seq![0x73u8, 0x68u8, 0x65u8, 0x65u8, 0x74u8] }   // sheet
-pub open spec fn n_sheets() -> Seq<u8> { seq![0x73u8, 0x68u8, 0x65u8, 0x65u8, 0x74u8, 0x73u8] }   // sheets
-pub open spec fn n_workbook() -> Seq<u8> { seq![0x77u8, 0x6fu8, 0x72u8, 0x6bu8, 0x62u8, 0x6fu8, 0x6fu8, 0x6bu8] }   // workbook
-pub open spec fn n_workbookpr() -> Seq<u8> { seq![0x77u8, 0x6fu8, 0x72u8, 0x6bu8, 0x62u8, 0x6fu8, 0x6fu8, 0x6bu8, 0x50u8, 0x72u8] }   // workbookPr
-pub open spec fn n_definedname() -> Seq<u8> { seq![0x64u8, 0x65u8, 0x66u8, 0x69u8, 0x6eu8, 0x65u8, 0x64u8, 0x4eu8, 0x61u8, 0x6du8, 0x65u8] }   // definedName
-pub open spec fn n_definednames() -> Seq<u8> { seq![0x64u8, 0x65u8, 0x66u8, 0x69u8, 0x6eu8, 0x65u8, 0x64u8, 0x4eu8, 0x61u8, 0x6du8, 0x65u8, 0x73u8] }   // definedNames
-pub open spec fn k_name() -> Seq<u8> { seq![0x6eu8, 0x61u8, 0x6du8, 0x65u8] }   // name
-pub open spec fn k_state() -> Seq<u8> { seq![0x73u8, 0x74u8, 0x61u8, 0x74u8, 0x65u8] }   // state
-pub open spec fn k_rid() -> Seq<u8> { seq![0x72u8, 0x3au8, 0x69u8, 0x64u8] }   // r:id
-pub open spec fn k_relsid() -> Seq<u8> { seq![0x72u8, 0x65u8, 0x6cu8, 0x61u8, 0x74u8, 0x69u8, 0x6fu8, 0x6eu8, 0x73u8, 0x68u8, 0x69u8, 0x70u8, 0x73u8, 0x3au8, 0x69u8, 0x64u8] }   // relationships:id
-pub open spec fn k_id() -> Seq<u8> { seq![0x69u8, 0x64u8] }   // id
-pub open spec fn k_date1904() -> Seq<u8> { seq![0x64u8, 0x61u8, 0x74u8, 0x65u8, 0x31u8, 0x39u8, 0x30u8, 0x34u8] }   // date1904
+#[verifier::opaque] pub open spec fn n_sheet() -> Seq<u8> { seq![0x73u8, 0x68u8, 0x65u8, 0x65u8, 0x74u8] }   // sheet
+#[verifier::opaque] pub open spec fn n_sheets() -> Seq<u8> { seq![0x73u8, 0x68u8, 0x65u8, 0x65u8, 0x74u8, 0x73u8] }   // sheets
+#[verifier::opaque] pub open spec fn n_workbook() -> Seq<u8> { seq![0x77u8, 0x6fu8, 0x72u8, 0x6bu8, 0x62u8, 0x6fu8, 0x6fu8, 0x6bu8] }   // workbook
+#[verifier::opaque] pub open spec fn n_workbookpr() -> Seq<u8> { seq![0x77u8, 0x6fu8, 0x72u8, 0x6bu8, 0x62u8, 0x6fu8, 0x6fu8, 0x6bu8, 0x50u8, 0x72u8] }   // workbookPr
+#[verifier::opaque] pub open spec fn n_definedname() -> Seq<u8> { seq![0x64u8, 0x65u8, 0x66u8, 0x69u8, 0x6eu8, 0x65u8, 0x64u8, 0x4eu8, 0x61u8, 0x6du8, 0x65u8] }   // definedName
+#[verifier::opaque] pub open spec fn n_definednames() -> Seq<u8> { seq![0x64u8, 0x65u8, 0x66u8, 0x69u8, 0x6eu8, 0x65u8, 0x64u8, 0x4eu8, 0x61u8, 0x6du8, 0x65u8, 0x73u8] }   // definedNames
+#[verifier::opaque] pub open spec fn k_name() -> Seq<u8> { seq![0x6eu8, 0x61u8, 0x6du8, 0x65u8] }   // name
+#[verifier::opaque] pub open spec fn k_state() -> Seq<u8> { seq![0x73u8, 0x74u8, 0x61u8, 0x74u8, 0x65u8] }   // state
+#[verifier::opaque] pub open spec fn k_rid() -> Seq<u8> { seq![0x72u8, 0x3au8, 0x69u8, 0x64u8] }   // r:id
+#[verifier::opaque] pub open spec fn k_relsid() -> Seq<u8> { seq![0x72u8, 0x65u8, 0x6cu8, 0x61u8, 0x74u8, 0x69u8, 0x6fu8, 0x6eu8, 0x73u8, 0x68u8, 0x69u8, 0x70u8, 0x73u8, 0x3au8, 0x69u8, 0x64u8] }   // relationships:id
+#[verifier::opaque] pub open spec fn k_id() -> Seq<u8> { seq![0x69u8, 0x64u8] }   // id
+#[verifier::opaque] pub open spec fn k_date1904() -> Seq<u8> { seq![0x64u8, 0x61u8, 0x74u8, 0x65u8, 0x31u8, 0x39u8, 0x30u8, 0x34u8] }   // date1904
 // TRUSTED: A-lit -- Verus keeps the contents of byte-string literals uninterpreted (only their length is known); the bytes of the
 // literals the verified code compares names with are stated here (ASCII)
 #[verifier::external_body]
@@ -827,6 +857,7 @@ proof fn lemma_names_distinct()
         n_workbook() != n_sheets(), n_workbook() != n_definednames(), n_sheets() != n_definednames(),
         k_name() != k_state(), k_name() != k_rid(), k_name() != k_relsid(), k_state() != k_rid(), k_state() != k_relsid(), k_rid() != k_relsid(),
 {
+    reveal(n_sheet); reveal(n_sheets); reveal(n_workbook); reveal(n_workbookpr); reveal(n_definedname); reveal(n_definednames); reveal(k_name); reveal(k_state); reveal(k_rid); reveal(k_relsid); reveal(k_id); reveal(k_date1904);
     assert(n_sheet().len() == 5 && n_sheets().len() == 6 && n_workbook().len() == 8 && n_workbookpr().len() == 10 && n_definedname().len() == 11 && n_definednames().len() == 12);
     assert(k_name().len() == 4 && k_state().len() == 5 && k_rid().len() == 4 && k_relsid().len() == 16);
     assert(k_name()[0] != k_rid()[0]);
@@ -836,6 +867,7 @@ proof fn lemma_wbpr_no_colon(k: int)
     requires 0 <= k < 10,
     ensures n_workbookpr()[k] != 0x3au8,
 {
+    reveal(n_workbookpr);
     let s = n_workbookpr();
     assert(s[0] != 0x3au8 && s[1] != 0x3au8 && s[2] != 0x3au8 && s[3] != 0x3au8 && s[4] != 0x3au8 && s[5] != 0x3au8 && s[6] != 0x3au8 && s[7] != 0x3au8 && s[8] != 0x3au8 && s[9] != 0x3au8);
 }
@@ -847,6 +879,7 @@ proof fn lemma_wbpr_name(e: Ev)
     if e.prefix is Some {
         let p = e.prefix->Some_0;
         if e.name == n_workbookpr() {
+            assert(n_workbookpr().len() == 10) by { reveal(n_workbookpr); }
             assert(e.name == p + seq![0x3au8] + e.local);
             assert(e.name[p.len() as int] == 0x3au8);
             assert(e.name.len() == p.len() + 1 + e.local.len());
@@ -928,6 +961,23 @@ pub open spec fn dn_name_idx(attrs: Seq<Attr>, i: int) -> int
     decreases attrs.len() - i
 {
     if i < 0 || i >= attrs.len() { attrs.len() as int } else if attrs[i].ok && attrs[i].key == k_name() { i } else { dn_name_idx(attrs, i + 1) }
+}
+proof fn lemma_dn_name_idx_first(attrs: Seq<Attr>, from: int, i: int)
+    requires 0 <= from <= i < attrs.len(), attrs[i].ok && attrs[i].key == k_name(),
+        forall|j: int| from <= j < i ==> !((#[trigger] attrs[j]).ok && attrs[j].key == k_name()),
+    ensures dn_name_idx(attrs, from) == i,
+    decreases i - from,
+{
+    if from < i { lemma_dn_name_idx_first(attrs, from + 1, i); }
+}
+proof fn lemma_dn_name_idx_props(attrs: Seq<Attr>, from: int)
+    requires 0 <= from <= attrs.len(),
+    ensures
+        from <= dn_name_idx(attrs, from) <= attrs.len(),
+        dn_name_idx(attrs, from) < attrs.len() ==> attrs[dn_name_idx(attrs, from)].ok && attrs[dn_name_idx(attrs, from)].key == k_name(),
+    decreases attrs.len() - from,
+{
+    if from < attrs.len() && !(attrs[from].ok && attrs[from].key == k_name()) { lemma_dn_name_idx_props(attrs, from + 1); }
 }
 pub ghost struct DnRes { pub ok: bool, pub text: Seq<char>, pub end: int }
 /// content of a definedName element whose start tag was written `qname`: character data up to its end tag
@@ -1071,6 +1121,19 @@ pub open spec fn rel_prefix_conventional(ev: Seq<Ev>) -> bool {
 }
 pub open spec fn no_cdata(ev: Seq<Ev>) -> bool { forall|k: int| 0 <= k < ev.len() ==> !((#[trigger] ev[k]).kind is CData) }
 
+//@@ props C01,C16
+/// BRIDGE between the property and the hypothesis `rel_prefix_conventional` of the clauses proved for read_workbook: the property
+/// (C01: "namespace prefixes" are a legal variation of the encoding) quantifies over every prefix the relationships namespace may be
+/// bound to; the clauses hold for the code's test `key == "r:id" || key == "relationships:id"` (`rid_key`).  They would carry over
+/// to all encodings iff every relationship-id attribute (`rid_attr`: local name `id` in the relationships namespace) were written
+/// that way.  It is not: `<sheet d3p1:id="rId1" xmlns:d3p1="...relationships"/>` (demonstration: findings/xlsxwb_6.rs).
+proof fn lemma_rel_id_attribute_is_recognised(a: Attr)
+    requires a.ok,
+    ensures rid_attr(a) ==> rid_key(a),
+{
+}
+//@@ props C16,C17,C07,C01,C06,C14
+
 
 // ---- how the loaded state mirrors the declared workbook
 pub open spec fn ext_sheets(old: Seq<(String, String)>, cur: Seq<(String, String)>, w: Seq<WbSheet>) -> bool {
@@ -1096,7 +1159,7 @@ pub open spec fn pr_or(pr: Option<bool>, d: bool) -> bool { match pr { Some(b) =
 proof fn lemma_date1904_bytes()
     ensures bytes_of("date1904"@) == k_date1904(),
 {
-    reveal_strlit("date1904");
+    reveal_strlit("date1904"); reveal(k_date1904);
     assert(bytes_of("date1904"@) =~= k_date1904());
 }
 
@@ -1115,38 +1178,37 @@ proof fn lemma_date1904_bytes()
         //# C16.absent_workbook_part
         !has_part(content(old(self).zip), wb_path()) ==> r is Ok && final(self).sheets == old(self).sheets && final(self).metadata == old(self).metadata
             && final(self).is_1904 == old(self).is_1904,
+        //# C16.wellformed_workbook_is_read
+        ({ let evs = part_events(content(old(self).zip), wb_path()); let wb = wb_part(evs->Some_0, relationships@);
+           has_part(content(old(self).zip), wb_path()) && evs is Some && wb.ok
+             && main_ns_is_default(evs->Some_0) && rel_prefix_conventional(evs->Some_0) && no_cdata(evs->Some_0) ==> r is Ok }),
         //# C16.sheets_in_document_order
         ({ let evs = part_events(content(old(self).zip), wb_path()); let wb = wb_part(evs->Some_0, relationships@);
            has_part(content(old(self).zip), wb_path()) && evs is Some && wb.ok
-             && main_ns_is_default(evs->Some_0) && rel_prefix_conventional(evs->Some_0) && no_cdata(evs->Some_0) ==>
-               r is Ok && ext_sheets(old(self).sheets@, final(self).sheets@, wb.sheets) && ext_meta(old(self).metadata.sheets@, final(self).metadata.sheets@, wb.sheets) }),
+             && main_ns_is_default(evs->Some_0) && rel_prefix_conventional(evs->Some_0) && no_cdata(evs->Some_0) && r is Ok ==>
+               ext_sheets(old(self).sheets@, final(self).sheets@, wb.sheets) && ext_meta(old(self).metadata.sheets@, final(self).metadata.sheets@, wb.sheets) }),
         //# C16.defined_names_in_order
         ({ let evs = part_events(content(old(self).zip), wb_path()); let wb = wb_part(evs->Some_0, relationships@);
            has_part(content(old(self).zip), wb_path()) && evs is Some && wb.ok
-             && main_ns_is_default(evs->Some_0) && rel_prefix_conventional(evs->Some_0) && no_cdata(evs->Some_0) ==>
-               r is Ok && names_are(final(self).metadata.names@, wb.names) }),
+             && main_ns_is_default(evs->Some_0) && rel_prefix_conventional(evs->Some_0) && no_cdata(evs->Some_0) && r is Ok ==>
+               names_are(final(self).metadata.names@, wb.names) }),
         //# C16.date1904_default_ns
         ({ let evs = part_events(content(old(self).zip), wb_path()); let wb = wb_part(evs->Some_0, relationships@);
            has_part(content(old(self).zip), wb_path()) && evs is Some && wb.ok
-             && main_ns_is_default(evs->Some_0) && rel_prefix_conventional(evs->Some_0) && no_cdata(evs->Some_0) ==>
-               r is Ok && final(self).is_1904 == pr_or(wb.pr, old(self).is_1904) }),
+             && main_ns_is_default(evs->Some_0) && rel_prefix_conventional(evs->Some_0) && no_cdata(evs->Some_0) && r is Ok ==>
+               final(self).is_1904 == pr_or(wb.pr, old(self).is_1904) }),
         //# C16.date1904_from_workbookPr
         ({ let evs = part_events(content(old(self).zip), wb_path()); let wb = wb_part(evs->Some_0, relationships@);
            has_part(content(old(self).zip), wb_path()) && evs is Some && wb.ok
-             && rel_prefix_conventional(evs->Some_0) && no_cdata(evs->Some_0) ==>
-               r is Ok && final(self).is_1904 == pr_or(wb.pr, old(self).is_1904) }),
-        //# C01,C16.relationship_ns_prefix
-        ({ let evs = part_events(content(old(self).zip), wb_path()); let wb = wb_part(evs->Some_0, relationships@);
-           has_part(content(old(self).zip), wb_path()) && evs is Some && wb.ok
-             && main_ns_is_default(evs->Some_0) && no_cdata(evs->Some_0) ==>
-               r is Ok && ext_sheets(old(self).sheets@, final(self).sheets@, wb.sheets) && ext_meta(old(self).metadata.sheets@, final(self).metadata.sheets@, wb.sheets) }),
+             && rel_prefix_conventional(evs->Some_0) && no_cdata(evs->Some_0) && r is Ok ==>
+               final(self).is_1904 == pr_or(wb.pr, old(self).is_1904) }),
         //# C16.defined_name_cdata
         ({ let evs = part_events(content(old(self).zip), wb_path()); let wb = wb_part(evs->Some_0, relationships@);
            has_part(content(old(self).zip), wb_path()) && evs is Some && wb.ok
-             && main_ns_is_default(evs->Some_0) && rel_prefix_conventional(evs->Some_0) ==>
-               r is Ok && names_are(final(self).metadata.names@, wb.names) }),
+             && main_ns_is_default(evs->Some_0) && rel_prefix_conventional(evs->Some_0) && r is Ok ==>
+               names_are(final(self).metadata.names@, wb.names) }),
 //@@ replace /a\.map_err\((XlsxError::XmlAttr)\)\?/ Verus: "using a datatype constructor as a function value" unsupported; eta-expanded, same function
-a.map_err(|e| \g<1>(e))?
+a.map_err(|e| -> (x: XlsxError) ensures x == \g<1>(e) { \g<1>(e) })?
 //@@ replace /Attribute \{\s*key: QName\((b"[^"]*")\),\s*\.\.\s*\}\s*=>/#0of2 Verus crashes on byte-string literal patterns: the slice is bound and compared in a guard (same test, same arm order); the literal is kept verbatim
 Attribute { key: QName(__k), .. } if __k == \g<1> =>
 //@@ replace /Attribute \{\s*key: QName\((b"[^"]*")\),\s*\.\.\s*\}\s*=>/#1of2 Verus crashes on byte-string literal patterns: the slice is bound and compared in a guard (same test, same arm order); the literal is kept verbatim
@@ -1158,44 +1220,60 @@ verif_format_1(\g<1>, r)
 //@@ replace /path\.split\(('[^']*')\)\.nth\((\d+)\)/ `Split::nth` is a provided Iterator method without a specification hook: assumed helper with the same arguments
 verif_str_split_nth(&path, \g<1>, \g<2>)
 //@@ replace /\.map_err\((XlsxError::Xml)\)\?/ Verus: "using a datatype constructor as a function value" unsupported; eta-expanded, same function
-.map_err(|e| \g<1>(e))?
+.map_err(|e| -> (x: XlsxError) ensures x == \g<1>(e) { \g<1>(e) })?
 //@@ body
         broadcast use {axiom_string_to_string, axiom_cow_to_string, axiom_pat_chars_str, axiom_str_index_full, axiom_str_index_from,
-                       axiom_string_index_req_full, axiom_str_index_req_from, axiom_peq_str, axiom_str_ext};
+                       axiom_string_index_req_full, axiom_str_index_req_from, axiom_peq_str, lemma_str_ext_lits};
 //@@ before /let mut defined_names = /
         let ghost ev = xml.events();
         let ghost rels = relationships@;
         let ghost tot = wb_part(ev, rels);
         let ghost good = tot.ok && main_ns_is_default(ev) && rel_prefix_conventional(ev) && no_cdata(ev);
         let ghost mut st = wb_init();
+        let ghost mut lastpos: int = 0;
         let ghost sh0 = self.sheets@;
         let ghost ms0 = self.metadata.sheets@;
         let ghost d0 = self.is_1904;
         let ghost aligned0 = aligned(sh0, ms0);
-        proof { axiom_bytelits(); lemma_names_distinct(); lemma_date1904_bytes(); }
+        proof {
+            axiom_bytelits(); lemma_names_distinct(); lemma_date1904_bytes();
+        }
 //@@ loop 0
             invariant_except_break
+                //# C16.code_follows_the_schema_walk
                 good ==> wb_scan(ev, xml.pos() as int, st, rels) == tot,
             invariant
                 xml.events() == ev,
                 self.strings == old(self).strings && self.formats == old(self).formats && self.tables == old(self).tables
                     && self.merged_regions == old(self).merged_regions && self.options == old(self).options
                     && self.metadata.names == old(self).metadata.names,
+                //# C16.sheets_and_metadata_aligned_so_far
                 aligned0 ==> aligned(self.sheets@, self.metadata.sheets@),
-                good ==> ext_sheets(sh0, self.sheets@, st.sheets) && ext_meta(ms0, self.metadata.sheets@, st.sheets)
-                    && names_are(defined_names@, st.names) && self.is_1904 == pr_or(st.pr, d0),
+                //# C16.sheets_in_document_order_so_far
+                good ==> ext_sheets(sh0, self.sheets@, st.sheets),
+                //# C16.sheet_metadata_in_document_order_so_far
+                good ==> ext_meta(ms0, self.metadata.sheets@, st.sheets),
+                //# C16.defined_names_in_order_so_far
+                good ==> names_are(defined_names@, st.names),
+                //# C16.date1904_so_far
+                good ==> self.is_1904 == pr_or(st.pr, d0),
             ensures
                 good ==> st.sheets == tot.sheets && st.names == tot.names && st.pr == tot.pr,
             decreases xml.left(),
 //@@ before /match xml\.read_event_into\(&mut buf\)/
             let ghost pos = xml.pos() as int;
             let ghost st0 = st;
+            proof { lastpos = pos; }
             let ghost stp = if pos < ev.len() { wb_step(ev, pos, st, rels) } else { WbStep::Bad };
             proof {
                 if good {
                     assert(pos < ev.len());
                     assert(!(stp is Bad));
                     if stp is Next { st = stp->Next_0; }
+                    if ev[pos].kind is End && ev[pos].local == n_workbook() {
+                        assert(stp is Done);
+                        assert(tot.sheets == st.sheets && tot.names == st.names && tot.pr == st.pr);
+                    }
                 }
                 if pos < ev.len() && ev[pos].is_tag() && ev[pos].wf() { lemma_wbpr_name(ev[pos]); }
             }
@@ -1203,7 +1281,12 @@ verif_str_split_nth(&path, \g<1>, \g<2>)
                     let ghost at = ev[pos].attrs;
                     proof {
                         assert(e.ev() == ev[pos]);
+                        assert(ev[pos].kind is Start);
+                        assert(ev[pos].local == n_sheet());
                         if good {
+                            assert(stp is Next);
+                            assert(st0.root);
+                            assert(st0.skip == 0);
                             assert(st0.root && st0.skip == 0 && st0.ctx is Sheets && is_main(ev[pos]));
                             assert(sheet_entry(ev[pos], rels) is Some);
                         }
@@ -1211,30 +1294,133 @@ verif_str_split_nth(&path, \g<1>, \g<2>)
 //@@ loop 1 it
                         invariant
                             attrs_match(it.seq(), at),
+                            //# C16.sheet_name_state_target_from_attributes
                             good ==> sh_fold(at, it.index@ as int, rels) == Some(ShAcc { name: name@, vis: visible, path: path@ }),
 //@@ before /let a = a\.map_err/
                         let ghost k = it.index@ as int;
                         proof {
+                            assert(0 <= k < at.len());
+                            assert(a == it.seq()[k]);
                             if good { lemma_sh_fold_prefix(at, k + 1, at.len() as int, rels); }
                         }
+//@@ before /match a \{/
+                        proof {
+                            if good {
+                                assert(sh_fold(at, k + 1, rels) is Some);
+                                assert(sh_fold(at, k, rels) == Some(ShAcc { name: name@, vis: visible, path: path@ }));
+                                assert(at[k].ok);
+                                assert(a.is(at[k]));
+                                assert(rid_attr(at[k]) <==> rid_key(at[k]));
+                            }
+                        }
+//@@ before /name = a\.decode_and_unescape_value/#0of2
+                                proof { if good { assert(__k@ == k_name()); assert(at[k].key == k_name()); assert(unesc(at[k].raw) is Some); } }
+//@@ before /visible = match a\.decode_and_unescape_value/
+                                proof { if good { assert(at[k].key == k_state()); assert(at[k].key != k_name()); assert(unesc(at[k].raw) is Some); assert(vis_of(unesc(at[k].raw)->Some_0) is Some); } }
 //@@ before /let r = &relationships/
-                                proof { axiom_bytes_keyed_map(rels, cow_ref(&v)); }
+                                proof { axiom_bytes_keyed_map(rels, cow_ref(&v));
+                                    if good { assert(__k@ == k_rid() || __k@ == k_relsid()); assert(__k@ == at[k].key); assert(rid_key(at[k])); assert(at[k].key != k_name() && at[k].key != k_state()); assert(cow_ref(&v)@ == at[k].raw); assert(rel_at(rels, at[k].raw) is Some); } }
 //@@ before /let typ = match/
-                    proof {
-                        reveal_strlit("worksheets"); reveal_strlit("chartsheets"); reveal_strlit("dialogsheets");
-                    }
-//@@ after /self\.sheets\.push\(\(name, path\)\);/
+                    proof { }
+//@@ before /path = if r\.starts_with/
+                                proof { reveal_strlit("/xl/"); }
+//@@ before /r\[1\.\.\]/
+                                    proof { assert(pat_chars::<&str>("/xl/") == "/xl/"@); assert(is_prefix("/xl/"@, r@)); assert(r@.subrange(0, 4)[0] == '/'); assert(r@[0] == '/'); assert(ascii_prefix(r@, 1)); }
+//@@ before /self\.metadata\.sheets\.push\(/
                     proof {
                         if good {
                             let x = sheet_entry(ev[pos], rels)->Some_0;
                             assert(st == WbSt { sheets: st0.sheets.push(x), skip: 1, ..st0 });
                         }
                     }
+//@@ before /self\.is_1904 = match/
+                    let ghost at = ev[pos].attrs;
+                    proof {
+                        assert(e.ev() == ev[pos]);
+                        // what the guard of this arm establishes, whichever name it tests
+                        assert(ev[pos].kind is Start && (ev[pos].name == n_workbookpr() || ev[pos].local == n_workbookpr()));
+                        if good {
+                            if ev[pos].name == n_workbookpr() { assert(ev[pos].prefix is None && ev[pos].local == n_workbookpr() && is_main(ev[pos])); }
+                            //# C16.date1904_only_from_the_workbooks_workbookPr
+                            assert(ev[pos].kind is Start && is_main(ev[pos]) && ev[pos].local == n_workbookpr()
+                                && st0.root && st0.skip == 0 && st0.ctx is Top && st0.pr is None);
+                            assert(date1904_of(ev[pos]) is Some);
+                            assert(st == WbSt { pr: date1904_of(ev[pos]), skip: 1, ..st0 });
+                        }
+                    }
+//@@ before /self\.metadata\.names = defined_names;/
+        proof {
+            assert(part_events(content(old(self).zip), wb_path()) == Some(ev));
+            assert(0 <= lastpos < ev.len());
+            assert(ev[lastpos].kind is End);
+            assert(ev[lastpos].local == n_workbook());
+            assert(good ==> st.sheets == tot.sheets);
+            assert(good ==> ext_sheets(sh0, self.sheets@, st.sheets));
+            assert(good ==> ext_meta(ms0, self.metadata.sheets@, st.sheets));
+            assert(good ==> names_are(defined_names@, st.names));
+        }
+//@@ closure 0
+    -> (res: bool) ensures res == (a.key.0@ == b"name"@)
 //@@ before /if let Some\(a\) = e/
-                    proof { assume(false); }
+                    let ghost at = ev[pos].attrs;
+                    let ghost mut handled = false;
+                    let ghost dtot = dn_scan(ev, pos + 1, ev[pos].name, Seq::<char>::empty());
+                    proof {
+                        broadcast use lemma_ok_all;
+                        assert(e.ev() == ev[pos]);
+                        assert(ev[pos].kind is Start && ev[pos].local == n_definedname());
+                        lemma_dn_name_idx_props(at, 0);
+                        if good {
+                            assert(stp is Next);
+                            assert(st0.root && st0.skip == 0 && st0.ctx is Names && is_main(ev[pos]));
+                            assert(dn_name_idx(at, 0) < at.len());
+                            assert(dtot.ok && pos < dtot.end < ev.len());
+                        }
+                    }
+//@@ before /let name = a\.decode_and_unescape_value/
+                        proof {
+                            broadcast use lemma_ok_all;
+                            handled = true;
+                            assert(exists|i: int| 0 <= i < at.len() && (#[trigger] at[i]).ok && a.is(at[i]) && at[i].key == k_name()
+                                && forall|j: int| 0 <= j < i ==> !((#[trigger] at[j]).ok && at[j].key == k_name()));
+                            let i = choose|i: int| 0 <= i < at.len() && (#[trigger] at[i]).ok && a.is(at[i]) && at[i].key == k_name()
+                                && forall|j: int| 0 <= j < i ==> !((#[trigger] at[j]).ok && at[j].key == k_name());
+                            lemma_dn_name_idx_first(at, 0, i);
+                            if good { assert(unesc(at[i].raw) is Some); }
+                        }
+//@@ before /let mut value = String::new\(\);/
+                        let ghost nm = name@;
 //@@ loop 2
-                            invariant xml.events() == ev,
+                            invariant
+                                xml.events() == ev,
+                                xml.pos() > pos,
+                                good ==> dn_scan(ev, xml.pos() as int, ev[pos].name, value@) == dtot,
                             decreases xml.left(),
+//@@ before /match xml\.read_event_into\(&mut val_buf\)/
+                            let ghost ipos = xml.pos() as int;
+                            proof {
+                                lastpos = ipos;
+                                if good { lemma_dn_end(ev, ipos, ev[pos].name, value@); assert(ipos < ev.len()); assert(!(ev[ipos].kind is CData)); }
+                            }
+//@@ before /defined_names\.push\(\(name, value\)\);/
+                        proof {
+                            if good {
+                                assert(0 <= lastpos < ev.len());
+                                assert(ev[lastpos].kind is End && ev[lastpos].name == ev[pos].name);
+                                assert(xml.pos() == lastpos + 1);
+                                assert(dtot == (DnRes { ok: true, text: value@, end: lastpos }));
+                                assert(st == WbSt { names: st0.names.push((nm, value@)), ..st0 });
+                            }
+                        }
+//@@ after /defined_names\.push\(\(name, value\)\);\s*\}/
+                    proof {
+                        broadcast use lemma_ok_all;
+                        if good && !handled {
+                            let k = dn_name_idx(at, 0);
+                            assert(at[k].ok && at[k].key == k_name());
+                            assert(false);
+                        }
+                    }
 //@@ end
 //@@ endimpl
 
